@@ -1,10 +1,29 @@
 package expr
 
 import (
+	"errors"
 	"fmt"
 
+	"github.com/shopspring/decimal"
 	"github.com/verily-src/fhirpath-go/fhirpath/system"
 )
+
+// ErrDivideByZero is returned by the division operators ('/', 'div', 'mod')
+// when the divisor is zero. FHIRPath defines the result of such a division
+// as empty ( { } ); ArithmeticExpression maps this error to an empty collection.
+var ErrDivideByZero = errors.New("division by zero")
+
+// isZero reports whether the given Integer or Decimal is zero.
+func isZero(value system.Any) bool {
+	switch v := value.(type) {
+	case system.Integer:
+		return v == 0
+	case system.Decimal:
+		return decimal.Decimal(v).IsZero()
+	default:
+		return false
+	}
+}
 
 // EvaluateAdd takes in two system types, and calls the appropriate Add method.
 func EvaluateAdd(lhs, rhs system.Any) (system.Any, error) {
@@ -118,6 +137,9 @@ func EvaluateDiv(lhs, rhs system.Any) (system.Any, error) {
 	switch left := lhs.(type) {
 	case system.Integer:
 		if right, ok := rhs.(system.Integer); ok {
+			if isZero(right) {
+				return nil, ErrDivideByZero
+			}
 			return left.Div(right), nil
 		}
 		if _, ok := rhs.(system.Quantity); ok {
@@ -126,6 +148,9 @@ func EvaluateDiv(lhs, rhs system.Any) (system.Any, error) {
 		return nil, typeMismatch(Div, lhs, rhs)
 	case system.Decimal:
 		if right, ok := rhs.(system.Decimal); ok {
+			if isZero(right) {
+				return nil, ErrDivideByZero
+			}
 			return left.Div(right), nil
 		}
 		if _, ok := rhs.(system.Quantity); ok {
@@ -144,6 +169,9 @@ func EvaluateFloorDiv(lhs, rhs system.Any) (system.Any, error) {
 	switch left := lhs.(type) {
 	case system.Integer:
 		if right, ok := rhs.(system.Integer); ok {
+			if isZero(right) {
+				return nil, ErrDivideByZero
+			}
 			return left.FloorDiv(right), nil
 		}
 		if _, ok := rhs.(system.Quantity); ok {
@@ -152,6 +180,9 @@ func EvaluateFloorDiv(lhs, rhs system.Any) (system.Any, error) {
 		return nil, typeMismatch(FloorDiv, lhs, rhs)
 	case system.Decimal:
 		if right, ok := rhs.(system.Decimal); ok {
+			if isZero(right) {
+				return nil, ErrDivideByZero
+			}
 			return left.FloorDiv(right)
 		}
 		if _, ok := rhs.(system.Quantity); ok {
@@ -170,6 +201,9 @@ func EvaluateMod(lhs, rhs system.Any) (system.Any, error) {
 	switch left := lhs.(type) {
 	case system.Integer:
 		if right, ok := rhs.(system.Integer); ok {
+			if isZero(right) {
+				return nil, ErrDivideByZero
+			}
 			return left.Mod(right), nil
 		}
 		if _, ok := rhs.(system.Quantity); ok {
@@ -178,6 +212,9 @@ func EvaluateMod(lhs, rhs system.Any) (system.Any, error) {
 		return nil, typeMismatch(Mod, lhs, rhs)
 	case system.Decimal:
 		if right, ok := rhs.(system.Decimal); ok {
+			if isZero(right) {
+				return nil, ErrDivideByZero
+			}
 			return left.Mod(right), nil
 		}
 		if _, ok := rhs.(system.Quantity); ok {
